@@ -22,6 +22,7 @@ type vfEvent struct {
 	digest string
 	ok     bool
 	hit    bool
+	good   bool // download: the stored bytes match the digest
 }
 
 var (
@@ -75,7 +76,7 @@ func vfDownloadBlob(ctx context.Context, opts downloadOpts) (bool, error) {
 	case 2:
 		vfPresent[opts.digest], vfGood[opts.digest] = true, false // flipped byte on the way
 	}
-	vfTrace = append(vfTrace, vfEvent{kind: "download", digest: opts.digest, ok: true, hit: false})
+	vfTrace = append(vfTrace, vfEvent{kind: "download", digest: opts.digest, ok: true, hit: false, good: vfGood[opts.digest]})
 	return false, nil
 }
 
@@ -244,6 +245,65 @@ func VerifC03PullTwice(maxLayers int) {
 			}
 			return
 		}
+	}
+}
+
+// ---- C12 (pull): the process may die between any two effects ----
+
+// VerifC12PullCrash: one pull over a store in which the name resolves to an intact previous model (or to
+// nothing). The effect trace of the real PullModel is replayed event by event; after EVERY prefix - a
+// point at which the process may be killed - the manifest the name resolves to at that moment (the old
+// one before the manifest write, the new one after it) has all its layers present and intact.
+func VerifC12PullCrash(maxLayers int) {
+	vfTrace = nil
+	vfPresent, vfGood = map[string]bool{}, map[string]bool{}
+	for _, d := range vfDigests {
+		if verifChoice(2) == 1 {
+			vfPresent[d], vfGood[d] = true, true
+		}
+	}
+	vfOld = nil
+	if verifChoice(2) == 1 {
+		vfOld = vfArbManifest("old", 2)
+		for _, d := range vfLayersOf(vfOld) {
+			verifAssume(vfPresent[d]) // the previous model is intact (that is what the property preserves)
+		}
+	}
+	vfNew = vfArbManifest("new", maxLayers)
+	// the store as it was before the operation
+	present0, good0 := map[string]bool{}, map[string]bool{}
+	for _, d := range vfDigests {
+		present0[d], good0[d] = vfPresent[d], vfGood[d]
+	}
+	envconfig.NoPrune = func() bool { return false }
+	PullModel(context.Background(), "registry.example/library/m:latest", &registryOptions{}, func(r api.ProgressResponse) {})
+	verifReach("pull-returned")
+	cur := vfOld
+	check := func(tag string) {
+		if cur == nil {
+			return
+		}
+		for _, d := range vfLayersOf(cur) {
+			verifAssert(present0[d], tag+"-present")
+			verifAssert(good0[d], tag+"-intact")
+		}
+	}
+	check("before-the-pull-resolvable-model-has-every-layer")
+	for _, e := range vfTrace {
+		switch e.kind {
+		case "download":
+			if e.ok && !e.hit {
+				present0[e.digest], good0[e.digest] = true, e.good
+			}
+		case "remove", "prune":
+			present0[e.digest] = false
+		case "write-manifest":
+			if e.ok {
+				cur = vfNew
+				verifReach("manifest-replaced")
+			}
+		}
+		check("at-every-crash-point-resolvable-model-has-every-layer")
 	}
 }
 
